@@ -97,6 +97,22 @@ class Report:
         json.dump(dict(property=self.pid, key=key, what=what, witness=replay_obj), open(path, 'w'), indent=1, default=str)
         self.violations.append((key, what, path))
 
+    def structural(self, key, what, witness, battery):
+        """A deviation seen on the executed MIR that is not itself an input/output counterexample (an unexpected event shape, an
+        abnormal outcome, a different call target): it becomes a violation only if the native twin battery of the check shows the
+        property broken on the real build; otherwise the structural argument of the check no longer applies -> inconclusive."""
+        try:
+            fails = battery()
+        except Exception as e:          # the battery itself could not run
+            fails = None
+            self.inconc(f'{what} (native battery could not run: {e!r:.200})')
+            return
+        self.replayed += 1
+        if fails:
+            self.violation(key, f'{what}; native twins: {"; ".join(str(f)[:200] for f in fails[:3])}', dict(witness or {}, native_failures=[str(f)[:300] for f in fails[:6]]))
+        else:
+            self.inconc(f'{what} -- not confirmed by the native twins of this check (its structural argument no longer applies to the current code)')
+
     def inconc(self, why):
         self.inconclusive.append(why)
 
